@@ -90,6 +90,9 @@ func loadEngine(repo, verif string) (*Engine, error) {
 		return nil, err
 	}
 	e.specs = sp
+	for _, k := range sp.Immutable {
+		immutableKeys[k] = true
+	}
 	return e, nil
 }
 
